@@ -452,8 +452,23 @@ func c01Ranges(t *testing.T, ctx context.Context, r *zv.Run, g *zv.Group, sy *sy
 				targets = append(targets, run{a, a + 2})
 			}
 		}
+		// single-row ranges that start at column 0 and end mid-row, or start mid-row and end at the last column
+		// (exactly one proof, on one side only), and whole rows
+		for rowStart := ((ru.from + k - 1) / k) * k; rowStart < ru.to && k > 1; rowStart += k {
+			for _, w := range []int{1, k / 2, k - 1, k} {
+				if w >= 1 && rowStart+w <= ru.to {
+					targets = append(targets, run{rowStart, rowStart + w})
+				}
+			}
+			if rowStart+k <= ru.to {
+				targets = append(targets, run{rowStart + 1, rowStart + k}, run{rowStart + k - 1, rowStart + k})
+			}
+			if len(targets) > 24 {
+				break
+			}
+		}
 		for _, tg := range targets {
-			if nTargets > r.N(40, 400) && k > 1 {
+			if nTargets > r.N(60, 400) && k > 1 {
 				break
 			}
 			nTargets++
@@ -470,6 +485,16 @@ func c01Ranges(t *testing.T, ctx context.Context, r *zv.Run, g *zv.Group, sy *sy
 			if tg.to-tg.from > 1 {
 				check(cp(d), tg.from, tg.to-1, "request-narrower")
 				check(cp(d), tg.from+1, tg.to, "request-narrower")
+			}
+			// the honest response of a neighbouring range of the same length (shifted right / left inside the square,
+			// with its own valid proofs) presented for this request
+			for _, j := range []int{1, 2, -1, k, -k} {
+				if tg.from+j < 0 || tg.to+j > k*k || j == 0 {
+					continue
+				}
+				if sd, ok := honest(tg.from+j, tg.to+j); ok {
+					check(sd, tg.from, tg.to, fmt.Sprintf("response-shifted%+d", j))
+				}
 			}
 			// proofs dropped / swapped
 			f := cp(d)
